@@ -126,10 +126,17 @@ int thread_count() {
     if (DIR* d = ::opendir("/proc/self/task")) { while (auto* e = ::readdir(d)) if (e->d_name[0] != '.') ++n; ::closedir(d); }
     return n;
 }
+// bounded progress, not a wall-clock deadline: fires only when the predicate is false and no
+// queue/pool hook event and no mock read has happened for `seconds`
 template <typename F> bool wait_for(F&& pred, int seconds) {
-    const auto deadline = std::chrono::steady_clock::now() + std::chrono::seconds(seconds);
+    auto last_change = std::chrono::steady_clock::now();
+    auto events = [] { return vhk::hs().events.load() + vhk::hs().pushes.load() + vhk::hs().pops.load() + g_mock_reads.load(); };
+    uint64_t last_events = events();
     while (!pred()) {
-        if (std::chrono::steady_clock::now() > deadline) return false;
+        const uint64_t ev = events();
+        const auto now = std::chrono::steady_clock::now();
+        if (ev != last_events) { last_events = ev; last_change = now; }
+        else if (now - last_change > std::chrono::seconds(seconds)) return false;
         std::this_thread::sleep_for(std::chrono::milliseconds(1));
         vh::heartbeat();
     }
@@ -325,6 +332,8 @@ void case_fault(uint64_t idx, vh::Rng& rng) {
     g_mock_reads = 0; g_mock_last_read_seq = 0; g_mock_close_calls = 0;
     { std::lock_guard<std::mutex> g{g_read_mtx}; g_read_log.clear(); }
     const std::set<int> fds_before = open_fds();
+    // baseline: wait until threads of earlier phases (seed writer, previous pool) are gone from /proc
+    wait_for([&] { return thread_count() <= 1 + nthreads; }, 3);
     const int threads_before = thread_count();
     std::atomic<bool> done{false};
     std::set<int> reader_fds;
@@ -386,7 +395,7 @@ void case_fault(uint64_t idx, vh::Rng& rng) {
         }
         done = true;
     }};
-    if (!wait_for([&] { return done.load(); }, 120)) {
+    if (!wait_for([&] { return done.load(); }, 60)) {
         vh::violation(std::string("hang: Reader API call or destructor did not return: ") + SC[scenario] + " " + FMT_NAME[fmt], cfg);
         runner.detach();
         vh::abort_shard_after_hang(vh::st().range_to - vh::st().current_case.load() - 1);
@@ -397,7 +406,7 @@ void case_fault(uint64_t idx, vh::Rng& rng) {
 
     // ---- (5) threads and fds back to the baseline
     wait_for([&] { return thread_count() <= threads_before; }, 5);
-    if (thread_count() != threads_before) vh::violation(std::string("thread leaked after the Reader was destroyed: ") + SC[scenario] + " " + FMT_NAME[fmt], cfg + vh::fmt(" threads %d -> %d", threads_before, thread_count()));
+    if (thread_count() > threads_before) vh::violation(std::string("thread leaked after the Reader was destroyed: ") + SC[scenario] + " " + FMT_NAME[fmt], cfg + vh::fmt(" threads %d -> %d", threads_before, thread_count()));
     {
         std::string leaked;
         for (int fd : open_fds()) if (!fds_before.count(fd)) leaked += std::to_string(fd) + " ";
@@ -426,9 +435,15 @@ void case_fault(uint64_t idx, vh::Rng& rng) {
     if (scenario != 0 && read_to_end && fault_fired) {
         // a truncated OPL/o5m/PBF file can be a shorter valid file (cut at a line,
         // dataset or blob boundary): only XML truncation must always be reported
-        const bool must_report = !(fault_class == "input truncated" && fmt != F_XML);
+        // Likewise flipped bytes inside an *uncompressed* protobuf block and garbage spliced into an
+        // o5m file can still be well-formed data; they are judged for termination, leaks and
+        // "no data after an error" only. Corruption inside zlib data, XML and OPL syntax errors,
+        // corrupt headers and injected decompressor failures must always be reported.
+        const bool must_report = !(fault_class == "input truncated" && fmt != F_XML) &&
+                                 fault_class != "PBF block with corrupt protobuf" &&
+                                 !(fault_class == "data corrupt in the middle" && fmt == F_O5M);
         if (out.throws == 0 && !must_report) {
-            vh::count("truncations_not_judged(valid shorter file possible)");
+            vh::count("corruptions_not_judged(can be well-formed data)");
         } else if (out.throws == 0) {
             vh::violation("injected failure never reported to the caller: " + fault_class + ": " + FMT_NAME[fmt], cfg + " | " + evs);
         } else {
@@ -442,9 +457,9 @@ void case_fault(uint64_t idx, vh::Rng& rng) {
     {
         size_t i = 0;
         for (; i < out.got.size() && i < seed.D.size(); ++i) if (!mdl::diff(seed.D[i], out.got[i]).empty()) break;
-        if (i < out.got.size() && fault_class != "header corrupt" && fault_class != "data corrupt in the middle" && fault_class != "input truncated")
+        if (i < out.got.size() && fault_class != "header corrupt" && fault_class != "data corrupt in the middle" && fault_class != "input truncated" && fault_class != "PBF block with corrupt protobuf")
             vh::violation(std::string("delivered objects are not a prefix of the file: ") + SC[scenario] + " " + FMT_NAME[fmt], cfg + vh::fmt(" | first difference at %zu", i));
-        if (fault_first_obj < seed.D.size() && out.got.size() > fault_first_obj && scenario == 3)
+        if (fault_first_obj < seed.D.size() && out.got.size() > fault_first_obj && scenario == 3 && fault_class != "PBF block with corrupt protobuf")
             vh::violation(std::string("objects located after the corrupt block were delivered: ") + FMT_NAME[fmt], cfg + vh::fmt(" | %zu delivered, block ends at %zu", out.got.size(), fault_first_obj));
     }
     if (from_file) ::unlink(path.c_str());
